@@ -270,3 +270,38 @@ Args::Args(int argc, char** argv) {
     else pos.push_back(a);
   }
 }
+
+// ------------------------------------------------------- block iterator -----
+static const uint8_t* bi_fetch(YR_MEMORY_BLOCK* b) {
+  BlockIter::Ctx* c = (BlockIter::Ctx*) b->context;
+  c->it->fetches++;
+  if (c->it->fetch_null.count(c->idx)) return NULL;
+  return c->it->data + c->it->blocks[c->idx].first;
+}
+static YR_MEMORY_BLOCK* bi_deliver(BlockIter* b, int target, int64_t idx) {
+  if (b->not_ready_at.count(idx)) { b->pending = target; b->not_ready_fired++; b->it.last_error = ERROR_BLOCK_NOT_READY; return NULL; }
+  b->pending = -1;
+  b->it.last_error = ERROR_SUCCESS;
+  if (target >= (int) b->mb.size()) { b->pos = target; return NULL; }
+  b->pos = target;
+  return &b->mb[target];
+}
+static YR_MEMORY_BLOCK* bi_first(YR_MEMORY_BLOCK_ITERATOR* it) {
+  BlockIter* b = (BlockIter*) it->context; int64_t idx = b->calls++; b->firsts++;
+  if (b->on_call) b->on_call(*b, idx, true);
+  return bi_deliver(b, 0, idx);
+}
+static YR_MEMORY_BLOCK* bi_next(YR_MEMORY_BLOCK_ITERATOR* it) {
+  BlockIter* b = (BlockIter*) it->context; int64_t idx = b->calls++; b->nexts++;
+  if (b->on_call) b->on_call(*b, idx, false);
+  int target = b->pending >= 0 ? b->pending : b->pos + 1;
+  return bi_deliver(b, target, idx);
+}
+static uint64_t bi_size(YR_MEMORY_BLOCK_ITERATOR* it) { return ((BlockIter*) it->context)->size; }
+void BlockIter::init(const void* d, size_t n, const std::vector<std::pair<size_t, size_t>>& parts) {
+  data = (const uint8_t*) d; size = n; blocks = parts;
+  mb.resize(parts.size()); ctx.resize(parts.size());
+  for (size_t i = 0; i < parts.size(); i++) { ctx[i] = {this, (int) i}; mb[i].size = parts[i].second; mb[i].base = parts[i].first; mb[i].context = &ctx[i]; mb[i].fetch_data = bi_fetch; }
+  pos = -1; pending = -1; calls = 0;
+  it.context = this; it.first = bi_first; it.next = bi_next; it.file_size = report_size ? bi_size : NULL; it.last_error = ERROR_SUCCESS;
+}
